@@ -36,7 +36,7 @@ MANIFEST = {
     'technique': 'explicit-state BFS over edit histories (add / overwrite / rejected add / remove by rule, name, prefix / hook '
                  'add / hook remove) on the real router, deduplicated by the concrete object graph; each state compared with a '
                  'survivor model and with routers freshly built from the survivors',
-    'text': 'All histories up to depth 3 (quick) / 5 (thorough) over a menu of 40 operations are replayed on fresh '
+    'text': 'All histories up to depth 3 (quick) / 5 (thorough) over a menu of 42 operations are replayed on fresh '
             'applications; every distinct concrete router state is probed on all paths and methods and compared with the '
             'survivor model, with freshly built routers (two insertion orders) and through Ombott.__call__ (hook invocations). A sub-universe is searched one level deeper on a router that is in use (all probe paths looked up after every edit).',
     'note': 'Bounds: 10 rules, 4 hook rules, 3 names, depth as stated. Trusted: the survivor model here, vf/refrouter.py.',
@@ -49,6 +49,9 @@ U = {
     '/i/{n:int}/p': (L('i/'), W('n', 'int'), L('/p')), '/i/{n:int}-v': (L('i/'), W('n', 'int'), L('-v')),
     # a plain wildcard where the two rules above have a filtered one: acceptable only while none of them is registered
     '/i/{s}/q': (L('i/'), W('s'), L('/q')),
+    # a rule written with a trailing slash is a rule of its own (request paths are stripped, so it matches nothing - but it is
+    # registered, found by rule and removed under exactly this spelling)
+    '/q/z/': (L('q/z/'),),
 }
 RMP_PATTERN = {'/i/{n:int}*': 'i/\r'}     # prefix removals whose prefix ends in a wildcard (rule text -> pattern prefix)
 HOOKS = {'/a': (L('a'),), '/a/b': (L('a/b'),), '/q': (L('q'),), '/a/{y}': (L('a/'), W('y'))}    # the hook names its wildcard differently from the routes
